@@ -476,6 +476,9 @@ func encodeResizeSources(srcs []*pilosa.ResizeSource) []*internal.ResizeSource {
 }
 
 func encodeResizeSource(m *pilosa.ResizeSource) *internal.ResizeSource {
+	if m == nil {
+		return nil
+	}
 	return &internal.ResizeSource{
 		Node:  encodeNode(m.Node),
 		Index: m.Index,
@@ -486,6 +489,9 @@ func encodeResizeSource(m *pilosa.ResizeSource) *internal.ResizeSource {
 }
 
 func encodeSchema(m *pilosa.Schema) *internal.Schema {
+	if m == nil {
+		return nil
+	}
 	return &internal.Schema{
 		Indexes: encodeIndexInfos(m.Indexes),
 	}
@@ -500,6 +506,9 @@ func encodeIndexInfos(idxs []*pilosa.IndexInfo) []*internal.Index {
 }
 
 func encodeIndexInfo(idx *pilosa.IndexInfo) *internal.Index {
+	if idx == nil {
+		return nil
+	}
 	return &internal.Index{
 		Name:   idx.Name,
 		Fields: encodeFieldInfos(idx.Fields),
@@ -515,6 +524,9 @@ func encodeFieldInfos(fs []*pilosa.FieldInfo) []*internal.Field {
 }
 
 func encodeFieldInfo(f *pilosa.FieldInfo) *internal.Field {
+	if f == nil {
+		return nil
+	}
 	ifield := &internal.Field{
 		Name:  f.Name,
 		Meta:  encodeFieldOptions(&f.Options),
@@ -557,6 +569,9 @@ func encodeNodes(a []*pilosa.Node) []*internal.Node {
 
 // encodeNode converts a Node into its internal representation.
 func encodeNode(n *pilosa.Node) *internal.Node {
+	if n == nil {
+		return nil
+	}
 	return &internal.Node{
 		ID:            n.ID,
 		URI:           encodeURI(n.URI),
@@ -574,6 +589,9 @@ func encodeURI(u pilosa.URI) *internal.URI {
 }
 
 func encodeClusterStatus(m *pilosa.ClusterStatus) *internal.ClusterStatus {
+	if m == nil {
+		return nil
+	}
 	return &internal.ClusterStatus{
 		State:     m.State,
 		ClusterID: m.ClusterID,
@@ -597,6 +615,9 @@ func encodeCreateIndexMessage(m *pilosa.CreateIndexMessage) *internal.CreateInde
 }
 
 func encodeIndexMeta(m *pilosa.IndexOptions) *internal.IndexMeta {
+	if m == nil {
+		return nil
+	}
 	return &internal.IndexMeta{
 		Keys:           m.Keys,
 		TrackExistence: m.TrackExistence,
@@ -683,6 +704,9 @@ func encodeNodeEventMessage(m *pilosa.NodeEvent) *internal.NodeEventMessage {
 }
 
 func encodeNodeStatus(m *pilosa.NodeStatus) *internal.NodeStatus {
+	if m == nil {
+		return nil
+	}
 	return &internal.NodeStatus{
 		Node:    encodeNode(m.Node),
 		Indexes: encodeIndexStatuses(m.Indexes),
@@ -691,6 +715,9 @@ func encodeNodeStatus(m *pilosa.NodeStatus) *internal.NodeStatus {
 }
 
 func encodeIndexStatus(m *pilosa.IndexStatus) *internal.IndexStatus {
+	if m == nil {
+		return nil
+	}
 	return &internal.IndexStatus{
 		Name:   m.Name,
 		Fields: encodeFieldStatuses(m.Fields),
@@ -706,6 +733,9 @@ func encodeIndexStatuses(a []*pilosa.IndexStatus) []*internal.IndexStatus {
 }
 
 func encodeFieldStatus(m *pilosa.FieldStatus) *internal.FieldStatus {
+	if m == nil {
+		return nil
+	}
 	return &internal.FieldStatus{
 		Name:            m.Name,
 		AvailableShards: m.AvailableShards.Slice(),
@@ -760,6 +790,10 @@ func decodeResizeSources(srcs []*internal.ResizeSource, m []*pilosa.ResizeSource
 }
 
 func decodeResizeSource(rs *internal.ResizeSource, m *pilosa.ResizeSource) {
+	if rs == nil {
+		// absent in the message (a short or hostile payload): leave m zero
+		return
+	}
 	m.Node = &pilosa.Node{}
 	decodeNode(rs.Node, m.Node)
 	m.Index = rs.Index
@@ -769,6 +803,10 @@ func decodeResizeSource(rs *internal.ResizeSource, m *pilosa.ResizeSource) {
 }
 
 func decodeSchema(s *internal.Schema, m *pilosa.Schema) {
+	if s == nil {
+		// absent in the message (a short or hostile payload): leave m zero
+		return
+	}
 	m.Indexes = make([]*pilosa.IndexInfo, len(s.Indexes))
 	decodeIndexes(s.Indexes, m.Indexes)
 }
@@ -781,6 +819,10 @@ func decodeIndexes(idxs []*internal.Index, m []*pilosa.IndexInfo) {
 }
 
 func decodeIndex(idx *internal.Index, m *pilosa.IndexInfo) {
+	if idx == nil {
+		// absent in the message (a short or hostile payload): leave m zero
+		return
+	}
 	m.Name = idx.Name
 	m.Fields = make([]*pilosa.FieldInfo, len(idx.Fields))
 	decodeFields(idx.Fields, m.Fields)
@@ -794,6 +836,10 @@ func decodeFields(fs []*internal.Field, m []*pilosa.FieldInfo) {
 }
 
 func decodeField(f *internal.Field, m *pilosa.FieldInfo) {
+	if f == nil {
+		// absent in the message (a short or hostile payload): leave m zero
+		return
+	}
 	m.Name = f.Name
 	m.Options = pilosa.FieldOptions{}
 	decodeFieldOptions(f.Meta, &m.Options)
@@ -804,6 +850,10 @@ func decodeField(f *internal.Field, m *pilosa.FieldInfo) {
 }
 
 func decodeFieldOptions(options *internal.FieldOptions, m *pilosa.FieldOptions) {
+	if options == nil {
+		// absent in the message (a short or hostile payload): leave m zero
+		return
+	}
 	m.Type = options.Type
 	m.CacheType = options.CacheType
 	m.CacheSize = options.CacheSize
@@ -824,6 +874,10 @@ func decodeNodes(a []*internal.Node, m []*pilosa.Node) {
 }
 
 func decodeClusterStatus(cs *internal.ClusterStatus, m *pilosa.ClusterStatus) {
+	if cs == nil {
+		// absent in the message (a short or hostile payload): leave m zero
+		return
+	}
 	m.State = cs.State
 	m.ClusterID = cs.ClusterID
 	m.Nodes = make([]*pilosa.Node, len(cs.Nodes))
@@ -831,6 +885,10 @@ func decodeClusterStatus(cs *internal.ClusterStatus, m *pilosa.ClusterStatus) {
 }
 
 func decodeNode(node *internal.Node, m *pilosa.Node) {
+	if node == nil {
+		// absent in the message (a short or hostile payload): leave m zero
+		return
+	}
 	m.ID = node.ID
 	decodeURI(node.URI, &m.URI)
 	m.IsCoordinator = node.IsCoordinator
@@ -838,6 +896,10 @@ func decodeNode(node *internal.Node, m *pilosa.Node) {
 }
 
 func decodeURI(i *internal.URI, m *pilosa.URI) {
+	if i == nil {
+		// absent in the message (a short or hostile payload): leave m zero
+		return
+	}
 	m.Scheme = i.Scheme
 	m.Host = i.Host
 	m.Port = uint16(i.Port)
@@ -856,6 +918,10 @@ func decodeCreateIndexMessage(pb *internal.CreateIndexMessage, m *pilosa.CreateI
 }
 
 func decodeIndexMeta(pb *internal.IndexMeta, m *pilosa.IndexOptions) {
+	if pb == nil {
+		// absent in the message (a short or hostile payload): leave m zero
+		return
+	}
 	m.Keys = pb.Keys
 	m.TrackExistence = pb.TrackExistence
 }
@@ -923,6 +989,10 @@ func decodeNodeEventMessage(pb *internal.NodeEventMessage, m *pilosa.NodeEvent) 
 }
 
 func decodeNodeStatus(pb *internal.NodeStatus, m *pilosa.NodeStatus) {
+	if pb == nil {
+		// absent in the message (a short or hostile payload): leave m zero
+		return
+	}
 	m.Node = &pilosa.Node{}
 	m.Indexes = decodeIndexStatuses(pb.Indexes)
 	m.Schema = &pilosa.Schema{}
@@ -939,6 +1009,10 @@ func decodeIndexStatuses(a []*internal.IndexStatus) []*pilosa.IndexStatus {
 }
 
 func decodeIndexStatus(pb *internal.IndexStatus, m *pilosa.IndexStatus) {
+	if pb == nil {
+		// absent in the message (a short or hostile payload): leave m zero
+		return
+	}
 	m.Name = pb.Name
 	m.Fields = decodeFieldStatuses(pb.Fields)
 }
@@ -953,6 +1027,10 @@ func decodeFieldStatuses(a []*internal.FieldStatus) []*pilosa.FieldStatus {
 }
 
 func decodeFieldStatus(pb *internal.FieldStatus, m *pilosa.FieldStatus) {
+	if pb == nil {
+		// absent in the message (a short or hostile payload): leave m zero
+		return
+	}
 	m.Name = pb.Name
 	m.AvailableShards = roaring.NewBitmap(pb.AvailableShards...)
 }
@@ -1034,6 +1112,10 @@ func decodeColumnAttrSets(pb []*internal.ColumnAttrSet, m []*pilosa.ColumnAttrSe
 }
 
 func decodeColumnAttrSet(pb *internal.ColumnAttrSet, m *pilosa.ColumnAttrSet) {
+	if pb == nil {
+		// absent in the message (a short or hostile payload): leave m zero
+		return
+	}
 	m.ID = pb.ID
 	m.Key = pb.Key
 	m.Attrs = decodeAttrs(pb.Attrs)
@@ -1205,6 +1287,9 @@ func encodeColumnAttrSets(a []*pilosa.ColumnAttrSet) []*internal.ColumnAttrSet {
 }
 
 func encodeColumnAttrSet(set *pilosa.ColumnAttrSet) *internal.ColumnAttrSet {
+	if set == nil {
+		return nil
+	}
 	return &internal.ColumnAttrSet{
 		ID:    set.ID,
 		Key:   set.Key,
